@@ -3660,6 +3660,7 @@ LIB_HANDLERS = {
     'numpy.ascontiguousarray': h_asarray, 'numpy.atleast_1d': h_asarray,
     'numpy.copy': h_asarray, 'numpy.append': h_append, 'numpy.concatenate': h_concatenate, 'numpy.insert': h_insert, 'numpy.hstack': h_concatenate,
     'numpy.add': h_binary('add'), 'numpy.subtract': h_binary('subtract'), 'numpy.multiply': h_binary('multiply'),
+    'operator.index': (lambda ev, pos, kw, st, node: pos[0] if len(pos) == 1 and not kw and isinstance(pos[0], Num) and pos[0].length is None else None),   # an integer as it is
     'types.MappingProxyType': (lambda ev, pos, kw, st, node: pos[0] if len(pos) == 1 and not kw and isinstance(pos[0], (Kw, Tup)) else None),   # read-only view
     'numpy.divide': h_binary('divide'), 'numpy.true_divide': h_binary('true_divide'), 'numpy.square': h_square, 'numpy.negative': h_negative,
     'numpy.shape': h_shape, 'numpy.size': h_size, 'numpy.where': lambda ev, pos, kw, st, node: (h_where_ew(ev, pos, kw, st, node) if len(pos) == 3 else h_nonzero_tuple(ev, pos, kw, st, node)), 'numpy.nonzero': h_nonzero_tuple, 'numpy.flatnonzero': h_flatnonzero,
